@@ -21,7 +21,7 @@ import (
 type WCase struct {
 	Len   int    `json:"len"`
 	Class string `json:"class"` // zeros | random | periodic | splitoften | splitnever
-	Frag  string `json:"frag"`  // whole | onebyte | dataeof | half | rand
+	Frag  string `json:"frag"`  // whole | onebyte | dataeof | half | rand | oddeof
 }
 
 // ---- contents ----
@@ -124,13 +124,18 @@ func (r *fragReader) Read(p []byte) (int, error) {
 		n = (len(p) + 1) / 2
 	case "rand":
 		n = 1 + r.rng.Intn(len(p))
+	case "oddeof":
+		n = 10007 // not aligned to any buffer size; the last read returns data and EOF together
+		if n > len(p) {
+			n = len(p)
+		}
 	}
 	if n > rem {
 		n = rem
 	}
 	copy(p, r.data[r.pos:r.pos+n])
 	r.pos += n
-	if r.mode == "dataeof" && r.pos == len(r.data) {
+	if (r.mode == "dataeof" || r.mode == "oddeof") && r.pos == len(r.data) {
 		return n, io.EOF // the last bytes and EOF together
 	}
 	return n, nil
@@ -379,7 +384,7 @@ func runWCase(lg *gate.Log, idx int, c WCase, seed int64) {
 func randomWCases(seed int64, n int) []WCase {
 	rng := rand.New(rand.NewSource(seed ^ 0x5eed))
 	classes := []string{"zeros", "random", "periodic", "splitoften", "splitnever"}
-	frags := []string{"whole", "onebyte", "dataeof", "half", "rand"}
+	frags := []string{"whole", "onebyte", "dataeof", "half", "rand", "oddeof"}
 	var out []WCase
 	for i := 0; i < n; i++ {
 		var ln int
@@ -392,6 +397,9 @@ func randomWCases(seed int64, n int) []WCase {
 			ln = 256<<10 + rng.Intn(70000) - 35000
 		case 3:
 			ln = 1<<20 + rng.Intn(70000) - 35000
+			if rng.Intn(2) == 0 {
+				ln = 256<<10 + (1+rng.Intn(2))<<20 + rng.Intn(33000) // just past a hard-cap cut of content that never splits
+			}
 		default:
 			ln = rng.Intn(2500000)
 		}
